@@ -164,8 +164,8 @@ VARIANTS = [
     V('c16-ok-possessive-free', 'C16', 'ok', '', K, r"(r'ORDER\s+BY\b', tokens.Keyword)", r"(r'ORDER\s+BY\b(?!\w)', tokens.Keyword)"),
     # ---- C17
     V('c17-no-end-while', 'C17', 'bad', 'R17.3', SP, "if unified in ('END IF', 'END FOR', 'END WHILE'):", "if unified in ('END IF', 'END FOR'):"),
-    V('c17-end-in-case-zero', 'C17', 'bad', 'R17.3', SP, "            else:\n                self._in_case = False\n            return -1", "            else:\n                self._in_case = False\n                return 0\n            return -1"),
-    V('c17-no-reset-case', 'C17', 'bad', 'R17.4', SP, "        self._in_case = False\n        self._is_create = False", "        self._is_create = False"),
+    V('c17-end-in-case-zero', 'C17', 'bad', 'R17.3', SP, "            if self._in_case:\n                self._in_case -= 1\n                return -1", "            if self._in_case:\n                self._in_case -= 1\n                return 0"),
+    V('c17-no-reset-case', 'C17', 'bad', 'R17.4', SP, "        self._in_case = 0\n        self._is_create = False", "        self._is_create = False"),
     V('c17-if-outside-begin', 'C17', 'bad', 'R17.3', SP, "                and self._is_create and self._begin_depth > 0):", "                and self._is_create):"),
     # ---- C18
     V('c18-no-skip-cm', 'C18', 'bad', 'R18.1', S, "        token = self.token_first(skip_cm=True)", "        token = self.token_first()"),
@@ -181,7 +181,7 @@ VARIANTS = [
     V('c20-no-lock', 'C20', 'bad', 'R20.1', L, "        with cls._lock:\n            if cls._default_instance is None:\n                cls._default_instance = cls()\n                cls._default_instance.default_initialization()", "        if cls._default_instance is None:\n            cls._default_instance = cls()\n            cls._default_instance.default_initialization()", 'the pre-0.5.0 getter'),
     V('c20-lock-in-method', 'C20', 'bad', 'R20.1', L, "    _lock = Lock()\n", "    _lock = None\n"),
     V('c20-cache-in-self', 'C20', 'bad', 'R20.2', L, "        val = value.upper()\n        for kwdict", "        val = self._last = value.upper()\n        for kwdict"),
-    V('c20-no-reset-in-case', 'C20', 'bad', 'R20.3', SP, "        self._in_case = False\n        self._is_create = False", "        self._is_create = False"),
+    V('c20-no-reset-in-case', 'C20', 'bad', 'R20.3', SP, "        self._in_case = 0\n        self._is_create = False", "        self._is_create = False"),
     V('c20-module-splitter', 'C20', 'bad', 'R20.4', FS, "class FilterStack:\n", "_SPLITTER = StatementSplitter()\n\n\nclass FilterStack:\n"),
     V('c20-mutable-default', 'C20', 'bad', 'R20.4', FS, "    def __init__(self, strip_semicolon=False):", "    def __init__(self, strip_semicolon=False, filters=[]):"),
     V('c20-new-type-in-func', 'C20', 'bad', 'R20.5', G, "        return token.ttype == T.Keyword.TZCast", "        return token.ttype == T.Keyword.TZCast or token.ttype == T.Keyword.Join"),
